@@ -62,7 +62,7 @@ class SimServer(object):
                     fr = env.dev.next_frame(env.clock.now)
                     if fr is None:
                         break
-                    conn.settimeout(10)
+                    conn.settimeout(60)
                     conn.sendall(fr)
                     conn.settimeout(0.2)
         finally:
